@@ -145,7 +145,9 @@ def logical_items(text, info=None):
 
     If `info` is a list, one dict per physical line is appended to it:
     kind ('blank', 'comment', 'omp', 'acc', 'stmt') and ccol, the column of
-    the `!` starting a trailing comment on a statement/directive line."""
+    the `!` starting a trailing comment on a statement/directive line;
+    directive continuation lines also carry continues=True, lead_amp (is
+    the optional `&` after the sentinel present) and sent_end."""
     items = []
     if info is None:
         info = []
@@ -186,12 +188,14 @@ def logical_items(text, info=None):
             else:
                 body = line[sent.end():]
                 lead = body.lstrip(" \t")
-                if lead.startswith("&"):
+                amp = lead.startswith("&")
+                if amp:
                     body = lead[1:]
                 last_full_comment = None
                 off = len(line) - len(body)
                 cont, ccol = _direc_body(direc, body, add_comment)
-                info.append({"kind": direc[0],
+                info.append({"kind": direc[0], "continues": True,
+                             "lead_amp": amp, "sent_end": sent.end(),
                              "ccol": None if ccol is None else off + ccol})
                 if not cont:
                     close_direc()
